@@ -62,10 +62,14 @@ func (w *Worker) Mine(ctx context.Context, data []byte, targetScore uint64) (uin
 
 	// stop when the context has been canceled
 	go func() {
+		verifHook("w.start", 0)
 		select {
 		case <-ctx.Done():
+			verifHook("w.ctxdone", 0)
 			atomic.StoreUint32(&done, 1)
+			verifHook("w.stored", 0)
 		case <-closing:
+			verifHook("w.closing", 0)
 			return
 		}
 	}()
@@ -79,18 +83,25 @@ func (w *Worker) Mine(ctx context.Context, data []byte, targetScore uint64) (uin
 		wg.Add(1)
 		go func() {
 			defer wg.Done()
+			verifHook("k.start", startNonce)
 
 			nonce, workerErr := w.worker(powDigest[:], startNonce, sufficientTrailing, target, &done, &counter)
 			if workerErr != nil {
+				verifHook("k.exit", startNonce)
 				return
 			}
+			verifHook("k.found", startNonce)
 			atomic.StoreUint32(&done, 1)
+			verifHook("k.stored", startNonce)
 			results <- nonce
+			verifHook("k.sent", startNonce)
 		}()
 	}
 	wg.Wait()
+	verifHook("m.joined", 0)
 	close(results)
 	close(closing)
+	verifHook("m.closed", 0)
 
 	nonce, ok := <-results
 	if !ok {
@@ -150,6 +161,7 @@ func (w *Worker) worker(powDigest []byte, startNonce uint64, sufficientTrailing 
 
 	digestTritsLen := b1t6.EncodedLen(len(powDigest))
 	for nonce := startNonce; atomic.LoadUint32(done) == 0; nonce += bct.MaxBatchSize {
+		verifHook("k.batch", startNonce)
 		// add the nonce to each trit buffer
 		for i := range buf {
 			nonceBuf := buf[i][digestTritsLen:]
